@@ -1,0 +1,17 @@
+//go:build verif
+// +build verif
+
+package pegnet
+
+import "database/sql"
+
+// VerifWrapDB, when set by a verification harness, may replace the database handle opened by
+// Init (e.g. by one that goes through an instrumented driver). Only compiled with -tags verif.
+var VerifWrapDB func(db *sql.DB, dsn string) *sql.DB
+
+func verifWrapDB(db *sql.DB, dsn string) *sql.DB {
+	if VerifWrapDB != nil {
+		return VerifWrapDB(db, dsn)
+	}
+	return db
+}
